@@ -334,6 +334,7 @@ class Interp(object):
         self.trace_reads = None
         self.sumfacts = {}
         self.opaque_arith = False     # see arith_terms
+        self.python_scalars = False   # the symbolic scalars of this world are Python floats (division by exact zero raises)
         self.inf_syms = frozenset()   # symbols that stand for +infinity (IEEE rules apply to them, see ieee())
         self.nonneg = set()
         self.col_base = {}
@@ -1069,7 +1070,10 @@ class Interp(object):
         if isinstance(it, LabelIter):
             return self.for_labels(st, env, it)
         if isinstance(it, Seq):
-            for x in it.items:
+            items = list(it.items)
+            if it.kind in ('generator', 'iterator'):
+                it.items = []           # a one-shot iterable: whoever iterates it next finds it exhausted
+            for x in items:
                 self.assign(st.target, x, env, st)
                 try:
                     self.exec_block(st.body, env)
@@ -1342,7 +1346,7 @@ class Interp(object):
         if r is not None:
             return self.wrap_resolved(r, node)
         if node.id in fr.module.globals:
-            return self.eval(fr.module.globals[node.id], Env())
+            return self.module_global(fr.module, node.id)
         b = self.lib.builtin(node.id)
         if b is not None:
             return b
@@ -1351,6 +1355,14 @@ class Interp(object):
             # a real Python builtin that the semantics table does not cover: unknown, not a NameError of the program
             raise Unsupported('builtin %s is not modelled' % node.id, node)
         raise Raised('NameError', node.id, self.loc(node))
+
+    def module_global(self, module, name):
+        """value of a module-level assignment: evaluated once per interpreter (the module is imported once per process), so
+        a module-level dict / list / array is one shared object for every function that uses it"""
+        key = (module.name, name)
+        if key not in self.module_state:
+            self.module_state[key] = self.eval(module.globals[name], Env())
+        return self.module_state[key]
 
     def wrap_resolved(self, r, node):
         if isinstance(r, ClassInfo):
@@ -1396,6 +1408,8 @@ class Interp(object):
                     sub = m.name + '.' + name
                     if sub in self.prog.modules:
                         return Obj('module', {'module': self.prog.modules[sub]})
+                    if name in getattr(m, 'globals', {}):
+                        return self.module_global(m, name)
                     if name.startswith('__'):
                         raise Unsupported('module attribute %s is not modelled' % name, node)
                     raise Raised('AttributeError', name, self.loc(node))
@@ -1735,6 +1749,9 @@ class Interp(object):
         except N.Incomplete as e:
             raise Unsupported('term outside the normal-form fragment: %s' % e, node)
         except ZeroDivisionError as e:
+            if self.python_scalars:
+                # plain Python numbers: float division by an exact zero raises (numpy scalars would warn and give inf)
+                raise Raised('ZeroDivisionError', 'float division by zero', self.loc(node))
             raise Unsupported('division by a zero term', node)
         raise Unsupported('operator %s' % op, node)
 
@@ -1870,9 +1887,16 @@ class Interp(object):
         if self.is_numeric(a) and self.is_numeric(b):
             ta, ka = self.term_of(a, node)
             tb, kb = self.term_of(b, node)
-            if P.is_pw(ta) or P.is_pw(tb):
-                raise Unsupported('comparison of piecewise terms', node)
             kind = 'array' if 'array' in (ka, kb) else 'scalar'
+            if P.is_pw(ta) or P.is_pw(tb):
+                # case by case: (c and cmp(a, y)) or (not c and cmp(b, y))
+                def lift(x, y):
+                    if P.is_pw(x):
+                        return (x.c & lift(x.a, y)) | ((~x.c) & lift(x.b, y))
+                    if P.is_pw(y):
+                        return (y.c & lift(x, y.a)) | ((~y.c) & lift(x, y.b))
+                    return P.Cond.cmp(sym, x, y)
+                return Mask(lift(ta, tb), kind)
             return Mask(P.Cond.cmp(sym, ta, tb), kind)
         raise Unsupported('comparison of %r and %r' % (a, b), node)
 
